@@ -12,7 +12,7 @@ import Ctrmml.Proofs.CodecStruct
 namespace Ctrmml.Codec
 open Ctrmml.Mds Ctrmml.Seq Tables
 
-variable {seq : List Nat} {base mj : Nat}
+variable {seq : List Nat} {base mj : Nat} {M : Mode}
 
 theorem brkCmd_cons (off : Nat) : ∃ b rest, brkCmd off = b :: rest ∧ b ≥ 0x80 := by
   unfold brkCmd; split
@@ -40,11 +40,12 @@ theorem step_brk {s : St} {l r : List Nat} {off : Nat} {f : LoopF} {fs : List Lo
     rw [this]; rfl
 
 /-- everything that is fixed while the interpreter goes round one loop with a break -/
-structure LB (seq : List Nat) (base mj : Nat) (e e2 e4 : Enc) (off n : Nat) (r : List Nat) (Tb Tt : List Tk) : Prop where
-  semB : ∀ (s : St) (O : List Tk), Good (afterLP e) s O →
-    ∃ s1, Reach seq base mj s s1 ∧ Frame s s1 ∧ Good e2 s1 (Tb.reverse ++ O)
-  semT : ∀ (s : St) (O : List Tk), Good (afterLPB e2 (brkCmd off)) s O →
-    ∃ s1, Reach seq base mj s s1 ∧ Frame s s1 ∧ Good e4 s1 (Tt.reverse ++ O)
+structure LB (M : Mode) (seq : List Nat) (base mj : Nat) (e e2 e4 : Enc) (off n : Nat) (r : List Nat) (Tb Tt : List Tk) : Prop where
+  snd : M.Sound seq base mj
+  semB : ∀ (s : St) (O : List Tk), Good M (afterLP e) s O →
+    ∃ s1, Reach seq base mj s s1 ∧ FrameX s s1 ∧ Good M e2 s1 (Tb.reverse ++ O)
+  semT : ∀ (s : St) (O : List Tk), Good M (afterLPB e2 (brkCmd off)) s O →
+    ∃ s1, Reach seq base mj s s1 ∧ FrameX s s1 ∧ Good M e4 s1 (Tt.reverse ++ O)
   hp : (afterLPFB e4 n r).out <+: seq
   p4 : (afterLPB e2 (brkCmd off)).out <+: e4.out
   htgt : e2.out.length + (brkCmd off).length + off = e4.out.length + 2
@@ -52,45 +53,45 @@ structure LB (seq : List Nat) (base mj : Nat) (e e2 e4 : Enc) (off n : Nat) (r :
 namespace LB
 variable {e e2 e4 : Enc} {off n : Nat} {r : List Nat} {Tb Tt : List Tk}
 
-theorem hpF (c : LB seq base mj e e2 e4 off n r Tb Tt) : e4.out ++ [mds_LPF, n % 256] <+: seq := c.hp
+theorem hpF (c : LB M seq base mj e e2 e4 off n r Tb Tt) : e4.out ++ [mds_LPF, n % 256] <+: seq := c.hp
 
-theorem hpC (c : LB seq base mj e e2 e4 off n r Tb Tt) : e2.out ++ (brkCmd off ++ []) <+: seq := by
+theorem hpC (c : LB M seq base mj e e2 e4 off n r Tb Tt) : e2.out ++ (brkCmd off ++ []) <+: seq := by
   have h : e2.out ++ brkCmd off <+: seq := c.p4.trans ((List.prefix_append _ _).trans c.hpF)
   simpa using h
 
 /-- a state standing on the loop start is related to the encoder state after `LP` -/
-theorem goodStart (s : St) (hpc : s.pc = (afterLP e).out.length) (hd : s.drum = false) :
-    Good (afterLP e) s s.out :=
+theorem goodStart (s : St) (hpc : s.pc = (afterLP e).out.length) (hd : s.drum = M.dm) :
+    Good M (afterLP e) s s.out :=
   ⟨fun h => absurd rfl h, fun h => absurd rfl h, hd,
     .inl ⟨needLenB_cmd (show mds_LP ≥ 0xe0 by decide), hpc, rfl⟩⟩
 
 /-- body, then the interpreter stands on the break instruction -/
-theorem toBrk (c : LB seq base mj e e2 e4 off n r Tb Tt) {s : St} {O : List Tk} (g : Good (afterLP e) s O) :
-    ∃ s2, Reach seq base mj s s2 ∧ Frame s s2 ∧ Idle e2 s2 (Tb.reverse ++ O) := by
+theorem toBrk (c : LB M seq base mj e e2 e4 off n r Tb Tt) {s : St} {O : List Tk} (g : Good M (afterLP e) s O) :
+    ∃ s2, Reach seq base mj s s2 ∧ FrameX s s2 ∧ Idle M e2 s2 (Tb.reverse ++ O) := by
   obtain ⟨s1, r1, f1, g1⟩ := c.semB s O g
   obtain ⟨b, rest, hb, hge⟩ := brkCmd_cons off
   have hp : e2.out ++ b :: (rest ++ []) <+: seq := by
     have := c.hpC; rw [hb] at this; simpa using this
-  obtain ⟨s2, r2, f2, i2⟩ := resolve (base := base) (mj := mj) g1 hge hp
-  exact ⟨s2, r1.trans r2, f1.trans f2, i2⟩
+  obtain ⟨s2, r2, f2, i2⟩ := resolve (base := base) (mj := mj) c.snd g1 hge hp
+  exact ⟨s2, r1.trans r2, f1.trans f2.x, i2⟩
 
 /-- tail, then the interpreter stands on the loop end -/
-theorem toLpf (c : LB seq base mj e e2 e4 off n r Tb Tt) {s : St} {O : List Tk}
-    (g : Good (afterLPB e2 (brkCmd off)) s O) :
-    ∃ s2, Reach seq base mj s s2 ∧ Frame s s2 ∧ Idle e4 s2 (Tt.reverse ++ O) ∧
+theorem toLpf (c : LB M seq base mj e e2 e4 off n r Tb Tt) {s : St} {O : List Tk}
+    (g : Good M (afterLPB e2 (brkCmd off)) s O) :
+    ∃ s2, Reach seq base mj s s2 ∧ FrameX s s2 ∧ Idle M e4 s2 (Tt.reverse ++ O) ∧
       seq[s2.pc]? = some mds_LPF ∧ seq[s2.pc + 1]? = some (n % 256) := by
   obtain ⟨s1, r1, f1, g1⟩ := c.semT s O g
-  obtain ⟨s2, r2, f2, i2⟩ := resolve (base := base) (mj := mj) g1 (b := mds_LPF) (by decide) c.hpF
-  exact ⟨s2, r1.trans r2, f1.trans f2, i2, by rw [i2.pc]; exact rd_at c.hpF, by rw [i2.pc]; exact rd_at1 c.hpF⟩
+  obtain ⟨s2, r2, f2, i2⟩ := resolve (base := base) (mj := mj) c.snd g1 (b := mds_LPF) (by decide) c.hpF
+  exact ⟨s2, r1.trans r2, f1.trans f2.x, i2, by rw [i2.pc]; exact rd_at c.hpF, by rw [i2.pc]; exact rd_at1 c.hpF⟩
 
-theorem goodF (s : St) (O : List Tk) (hpc : s.pc = (afterLPFB e4 n r).out.length) (hd : s.drum = false)
-    (ho : s.out = O) : Good (afterLPFB e4 n r) s O :=
+theorem goodF (s : St) (O : List Tk) (hpc : s.pc = (afterLPFB e4 n r).out.length) (hd : s.drum = M.dm)
+    (ho : s.out = O) : Good M (afterLPFB e4 n r) s O :=
   ⟨fun h => absurd rfl h, fun h => absurd rfl h, hd,
     .inl ⟨needLenB_cmd (show mds_LPF ≥ 0xe0 by decide), hpc, ho⟩⟩
 
-theorem goodAfterBrk (s : St) (O : List Tk) (i : Idle e2 s O) (s' : St)
+theorem goodAfterBrk (s : St) (O : List Tk) (i : Idle M e2 s O) (s' : St)
     (hpc : s'.pc = s.pc + (brkCmd off).length) (hn : s'.lastNote = s.lastNote) (hr : s'.lastRest = s.lastRest)
-    (hd : s'.drum = s.drum) (ho : s'.out = s.out) : Good (afterLPB e2 (brkCmd off)) s' O :=
+    (hd : s'.drum = s.drum) (ho : s'.out = s.out) : Good M (afterLPB e2 (brkCmd off)) s' O :=
   ⟨by rw [hn]; exact i.note, by rw [hr]; exact i.rest, hd.trans i.drum,
     .inl ⟨needLenB_cmd (show mds_LPB ≥ 0xe0 by decide), by rw [hpc, i.pc]; simp [afterLPB], ho.trans i.out⟩⟩
 
@@ -100,11 +101,11 @@ theorem ticks_step (k : Nat) (Tb Tt O : List Tk) :
   simp [repeatL, List.reverse_append, List.append_assoc]
 
 /-- passes with a known remaining count `k + 1`: `k` full passes, then the body and out by the break -/
-theorem passes (c : LB seq base mj e e2 e4 off n r Tb Tt) :
-    ∀ (k : Nat) (s : St) (O : List Tk) (fs : List LoopF), Good (afterLP e) s O →
+theorem passes (c : LB M seq base mj e e2 e4 off n r Tb Tt) :
+    ∀ (k : Nat) (s : St) (O : List Tk) (fs : List LoopF), Good M (afterLP e) s O →
       s.loops = { start := (afterLP e).out.length, count := k + 1 } :: fs →
       ∃ s', Reach seq base mj s s' ∧
-        Good (afterLPFB e4 n r) s' ((repeatL k (Tb ++ Tt) ++ Tb).reverse ++ O) ∧
+        Good M (afterLPFB e4 n r) s' ((repeatL k (Tb ++ Tt) ++ Tb).reverse ++ O) ∧
         s'.loops = fs ∧ s'.calls = s.calls ∧ s'.drum = s.drum ∧ s'.jumps = s.jumps := by
   intro k
   induction k with
@@ -114,7 +115,7 @@ theorem passes (c : LB seq base mj e e2 e4 off n r Tb Tt) :
     have hl2 : s2.loops = { start := (afterLP e).out.length, count := 0 + 1 } :: fs := by rw [f2.loops, hl]
     have hs := step_brk (base := base) (mj := mj) c.hpC i2.pc hl2
     simp only [Nat.zero_add, if_true] at hs
-    refine ⟨_, r2.trans (.one hs (Nat.le_refl _)), ?_, rfl, f2.calls, f2.drum, f2.jumps⟩
+    refine ⟨_, r2.trans (.one hs (Nat.le_refl _)), ?_, rfl, f2.calls, i2.drum.trans g.drum.symm, f2.jumps⟩
     apply goodF
     · have := c.htgt; simp [afterLPFB, i2.pc]; omega
     · exact i2.drum
@@ -142,21 +143,21 @@ theorem passes (c : LB seq base mj e e2 e4 off n r Tb Tt) :
         s5.pc = (afterLP e).out.length ∧ s5.loops = { start := (afterLP e).out.length, count := k + 1 } :: fs ∧
         s5.calls = s4.calls ∧ s5.drum = s4.drum ∧ s5.jumps = s4.jumps ∧ s5.out = s4.out :=
       ⟨_, hs4, rfl, rfl, rfl, rfl, rfl, rfl⟩
-    have g5 : Good (afterLP e) s5 s5.out := goodStart s5 hpc5 (hdr5.trans i4.drum)
+    have g5 : Good M (afterLP e) s5 s5.out := goodStart s5 hpc5 (hdr5.trans i4.drum)
     obtain ⟨s', r', g', hl', hc', hd', hj'⟩ := ih s5 _ fs g5 hlo5
     refine ⟨s', r2.trans (.head hs3 (by rw [hou3]; exact Nat.le_refl _)
       (r4.trans (.head hs5 (by rw [hou5]; exact Nat.le_refl _) r'))), ?_, hl', ?_, ?_, ?_⟩
     · rw [hou5, i4.out] at g'
       rw [← ticks_step]; exact g'
     · rw [hc', hca5, f4.calls, hca3]; exact f2.calls
-    · rw [hd', hdr5, f4.drum, hdr3]; exact f2.drum
+    · rw [hd', hdr5]; exact i4.drum.trans g.drum.symm
     · rw [hj', hju5, f4.jumps, hju3]; exact f2.jumps
 
 /-- from the loop start with the count not yet known: the whole loop -/
-theorem first (c : LB seq base mj e e2 e4 off n r Tb Tt) (s : St) (O : List Tk) (fs : List LoopF)
-    (g : Good (afterLP e) s O) (hl : s.loops = { start := (afterLP e).out.length, count := 0 } :: fs) :
+theorem first (c : LB M seq base mj e e2 e4 off n r Tb Tt) (s : St) (O : List Tk) (fs : List LoopF)
+    (g : Good M (afterLP e) s O) (hl : s.loops = { start := (afterLP e).out.length, count := 0 } :: fs) :
     ∃ s', Reach seq base mj s s' ∧
-      Good (afterLPFB e4 n r) s'
+      Good M (afterLPFB e4 n r) s'
         ((repeatL (Codec.passes n - 1) (Tb ++ Tt) ++ Tb ++ (if n % 256 ≤ 1 then Tt else [])).reverse ++ O) ∧
       s'.loops = fs ∧ s'.calls = s.calls ∧ s'.drum = s.drum ∧ s'.jumps = s.jumps := by
   obtain ⟨s2, r2, f2, i2⟩ := c.toBrk g
@@ -180,7 +181,7 @@ theorem first (c : LB seq base mj e e2 e4 off n r Tb Tt) (s : St) (O : List Tk) 
         s5.pc = (afterLP e).out.length ∧ s5.loops = { start := (afterLP e).out.length, count := k + 1 } :: fs ∧
         s5.calls = s4.calls ∧ s5.drum = s4.drum ∧ s5.jumps = s4.jumps ∧ s5.out = s4.out :=
       ⟨_, hs4, rfl, by simp [hk], rfl, rfl, rfl, rfl⟩
-    have g5 : Good (afterLP e) s5 s5.out := goodStart s5 hpc5 (hdr5.trans i4.drum)
+    have g5 : Good M (afterLP e) s5 s5.out := goodStart s5 hpc5 (hdr5.trans i4.drum)
     obtain ⟨s', r', g', hl', hc', hd', hj'⟩ := c.passes k s5 _ fs g5 hlo5
     have hpass : Codec.passes n - 1 = k + 1 := by unfold Codec.passes; split <;> omega
     have hn1 : ¬ n % 256 ≤ 1 := by omega
@@ -189,7 +190,7 @@ theorem first (c : LB seq base mj e e2 e4 off n r Tb Tt) (s : St) (O : List Tk) 
     · rw [hou5, i4.out] at g'
       rw [hpass, if_neg hn1, List.append_nil, ← ticks_step]; exact g'
     · rw [hc', hca5, f4.calls, hca3]; exact f2.calls
-    · rw [hd', hdr5, f4.drum, hdr3]; exact f2.drum
+    · rw [hd', hdr5]; exact i4.drum.trans g.drum.symm
     · rw [hj', hju5, f4.jumps, hju3]; exact f2.jumps
   · rw [if_neg hc] at hs4
     have hpass : Codec.passes n - 1 = 0 := by unfold Codec.passes; split <;> omega
@@ -201,24 +202,45 @@ theorem first (c : LB seq base mj e e2 e4 off n r Tb Tt) (s : St) (O : List Tk) 
       · exact i4.drum
       · simp [i4.out, hpass, if_pos hn1, repeatL, List.reverse_append, List.append_assoc]
     · show s4.calls = s.calls; rw [f4.calls, hca3]; exact f2.calls
-    · show s4.drum = s.drum; rw [f4.drum, hdr3]; exact f2.drum
+    · show s4.drum = s.drum; exact i4.drum.trans g.drum.symm
     · show s4.jumps = s.jumps; rw [f4.jumps, hju3]; exact f2.jumps
 
 end LB
 
-/-- what a function on encoder states does, semantically (as `EvOk` / `SegOk`, for any encoder) -/
-def StepOk (f : Enc → Except CErr Enc) (e : Enc) (T : List Tk) : Prop :=
+/-- what a function on encoder states does, semantically (as `EvOk` / `SegOk`, for any encoder):
+from mode `M` to mode `M'` -/
+def StepOk (M M' : Mode) (C : List Nat → Nat → Nat → Prop) (f : Enc → Except CErr Enc) (e : Enc) (T : List Tk) : Prop :=
   ∃ e', f e = .ok e' ∧
-    ∀ (seq : List Nat) (base mj : Nat) (s : St) (O : List Tk), e'.out <+: seq → Good e s O →
-      ∃ s1, Reach seq base mj s s1 ∧ Frame s s1 ∧ Good e' s1 (T.reverse ++ O)
+    ∀ (seq : List Nat) (base mj : Nat) (s : St) (O : List Tk), M.Sound seq base mj → C seq base mj → e'.out <+: seq →
+      Good M e s O → ∃ s1, Reach seq base mj s s1 ∧ FrameX s s1 ∧ Good M' e' s1 (T.reverse ++ O)
+
+mutual
+theorem noCall_callsOk (M : Mode) (seq : List Nat) (base mj : Nat) : ∀ (t : Node), t.noCall = true → t.callsOk M seq base mj
+  | .ev _, _ => by simp [Node.callsOk]
+  | .xbrk, _ => by simp [Node.callsOk]
+  | .call _ _, h => by simp [Node.noCall] at h
+  | .loop body _, h => by
+    simp only [Node.callsOk]; exact noCallL_callsOkL M seq base mj body (by simpa [Node.noCall] using h)
+  | .loopB body tail _, h => by
+    simp only [Node.noCall, Bool.and_eq_true] at h
+    simp only [Node.callsOk]
+    exact ⟨noCallL_callsOkL M seq base mj body h.1, noCallL_callsOkL M seq base mj tail h.2⟩
+theorem noCallL_callsOkL (M : Mode) (seq : List Nat) (base mj : Nat) : ∀ (ts : List Node), noCallL ts = true →
+    callsOkL M seq base mj ts
+  | [], _ => by simp [callsOkL]
+  | t :: ts, h => by
+    simp only [noCallL, Bool.and_eq_true] at h
+    simp only [callsOkL]
+    exact ⟨noCall_callsOk M seq base mj t h.1, noCallL_callsOkL _ seq base mj ts h.2⟩
+end
 
 /-- entering a loop: the pending note is resolved by the `LP` byte, a frame is pushed -/
-theorem enter_loop {e : Enc} {s : St} {O : List Tk} {rest : List Nat} (g : Good e s O)
+theorem enter_loop (hS : M.Sound seq base mj) {e : Enc} {s : St} {O : List Tk} {rest : List Nat} (g : Good M e s O)
     (hp : e.out ++ mds_LP :: rest <+: seq) :
-    ∃ s1, Reach seq base mj s s1 ∧ Good (afterLP e) s1 O ∧
+    ∃ s1, Reach seq base mj s s1 ∧ Good M (afterLP e) s1 O ∧
       s1.loops = { start := (afterLP e).out.length, count := 0 } :: s.loops ∧
       s1.calls = s.calls ∧ s1.drum = s.drum ∧ s1.jumps = s.jumps := by
-  obtain ⟨s0, r0, f0, i0⟩ := resolve (base := base) (mj := mj) g (b := mds_LP) (by decide) hp
+  obtain ⟨s0, r0, f0, i0⟩ := resolve (base := base) (mj := mj) hS g (b := mds_LP) (by decide) hp
   have rd0 : seq[s0.pc]? = some mds_LP := by rw [i0.pc]; exact rd_at hp
   have hs := step_lp (base := base) (mj := mj) rd0
   obtain ⟨s1, hs1, hpc1, hlo1, hca1, hdr1, hju1, hou1⟩ : ∃ s1 : St, step seq base mj s0 = .ok s1 ∧
@@ -227,43 +249,98 @@ theorem enter_loop {e : Enc} {s : St} {O : List Tk} {rest : List Nat} (g : Good 
     ⟨_, hs, rfl, rfl, rfl, rfl, rfl, rfl⟩
   have hlen1 : (afterLP e).out.length = s0.pc + 1 := by rw [i0.pc]; simp [afterLP]
   refine ⟨s1, r0.trans (.one hs1 (by rw [hou1]; exact Nat.le_refl _)), ?_, ?_, ?_, ?_, ?_⟩
-  · have := LB.goodStart (e := e) s1 (by rw [hpc1, hlen1]) (hdr1.trans i0.drum)
+  · have := LB.goodStart (M := M) (e := e) s1 (by rw [hpc1, hlen1]) (hdr1.trans i0.drum)
     rw [hou1, i0.out] at this; exact this
   · rw [hlo1, hlen1, f0.loops]
   · rw [hca1]; exact f0.calls
   · rw [hdr1]; exact f0.drum
   · rw [hju1]; exact f0.jumps
 
+/-- an event that does not fit the mode but is allowed at the top level is a `FLG` command whose
+argument switches the drum flag -/
+theorem switch_of_not_evOk {M : Mode} {ev : MEv} (hv : linEv ev = true) (h1 : M.evOk ev = false)
+    (h2 : ev.type = mds_FLG) : ev.arg % 256 < 0x80 := by
+  simp only [Mode.evOk, Bool.and_eq_false_iff, Bool.or_eq_false_iff, bne_eq_false_iff_eq] at h1
+  rcases h1 with h1 | h1
+  · have : ¬ (mds_TIE ≤ ev.type ∧ ev.type < mds_SLR) := by rw [h2]; decide
+    simp [h2, mds_FLG, mds_TIE, mds_SLR] at h1
+  · have := h1.2
+    simp only [drumSafe, Bool.or_eq_false_iff, decide_eq_false_iff_not] at this
+    omega
+
+theorem encEv_flg (nS nM : Nat) (e : Enc) (arg : Nat) :
+    encEv nS nM e ⟨mds_FLG, arg⟩ = .ok { e with out := e.out ++ [mds_FLG, arg % 256], lastType := mds_FLG } :=
+  encEv_other (by decide) (encOther_byte nS nM e arg (by decide))
+
 mutual
 /-- **decoding the structured encoder**: every bracket structure over the linear fragment -/
-theorem encN_sim (nS nM : Nat) : ∀ (t : Node), t.lin = true → ∀ e : Enc, StepOk (encN nS nM t) e (t.exp nS nM)
-  | .ev ev, hl, e => by
-    obtain ⟨e', h, _, _, _, sem⟩ := encEv_lin nS nM e ev (by simpa [Node.lin] using hl)
-    exact ⟨e', by simpa [encN] using h, by simpa [Node.exp] using sem⟩
-  | .loop body n, hl, e => by
+theorem encN_sim (M : Mode) (top : Bool) (nS nM : Nat) : ∀ (t : Node), t.lin = true → t.mok M top = true → ∀ e : Enc,
+    StepOk M (t.after M) (fun seq base mj => t.callsOk M seq base mj) (encN nS nM t) e (t.exp M nS nM)
+  | .ev ev, hl, hm, e => by
+    have hl' : linEv ev = true := by simpa [Node.lin] using hl
+    cases hok : M.evOk ev with
+    | true =>
+      obtain ⟨e', h, _, _, _, sem⟩ := encEv_lin M nS nM e ev hl' hok
+      refine ⟨e', by simpa [encN] using h, fun seq base mj s O hS _ hp g => ?_⟩
+      obtain ⟨s1, a, b, c⟩ := sem seq base mj s O hS hp g
+      refine ⟨s1, a, b.x, ?_⟩
+      simpa [Node.exp, Node.after, Mode.after_of_evOk hok] using c
+    | false =>
+      simp only [Node.mok, hok, Bool.false_or, Bool.and_eq_true, beq_iff_eq] at hm
+      obtain ⟨ty, arg⟩ := ev
+      have hty : ty = mds_FLG := hm.2
+      subst hty
+      have hlt : arg % 256 < 0x80 := switch_of_not_evOk hl' hok rfl
+      refine ⟨_, by simpa [encN] using encEv_flg nS nM e arg, fun seq base mj s O hS _ hp g => ?_⟩
+      obtain ⟨s1, a, b, c⟩ := flg_good (base := base) (mj := mj) hS g
+        (e' := { e with out := e.out ++ [mds_FLG, arg % 256], lastType := mds_FLG }) hlt rfl rfl rfl
+        (show mds_FLG ≥ 0xe0 by decide) hp
+      refine ⟨s1, a, b, ?_⟩
+      have hev : evTicks M nS nM ⟨mds_FLG, arg⟩ = [Tk.cmd mds_FLG (arg % 256)] := by
+        have w : ¬ (236 : Nat) ∈ wordArgOps := by decide
+        have b : (236 : Nat) ∈ byteArgOps := by decide
+        simp [evTicks, cmdArg, isCmdOp, w, b, mds_FLG, mds_REST, mds_TIE, mds_SLR, mds_MTAB, mds_INS,
+          mds_PCM, mds_PEG, mds_DMFINISH]
+      simpa [Node.exp, Node.after, Mode.after, hlt, hev] using c
+  | .xbrk, _, _, e =>
+    ⟨e, rfl, fun _ _ _ s O _ _ _ g => ⟨s, .refl _, FrameX.rfl' _, by simpa [Node.exp, Node.after] using g⟩⟩
+  | .call arg T, _, _, e => by
+    refine ⟨afterPAT e arg, rfl, ?_⟩
+    intro seq base mj s O hS hc hp g
+    simp only [Node.callsOk] at hc
+    obtain ⟨t, ht, hsub⟩ := hc
+    obtain ⟨s1, a, b, c⟩ := pat_good hS g arg hp ht hsub
+    exact ⟨s1, a, b.x, by simpa [Node.exp, Node.after] using c⟩
+  | .loop body n, hl, hm, e => by
     have hl' : linL body = true := by simpa [Node.lin] using hl
-    obtain ⟨e2, h2, sem2⟩ := encL_sim nS nM body hl' (afterLP e)
+    have hm' : mokL M false body = true := by simpa [Node.mok] using hm
+    obtain ⟨e2, h2, sem2⟩ := encL_sim M false nS nM body hl' hm' (afterLP e)
+    rw [afterL_of_mok hm'] at sem2
     obtain ⟨_, h2', p2, _, _⟩ := encL_total nS nM body hl' (afterLP e)
     rw [h2] at h2'; injection h2' with h2'; subst h2'
     refine ⟨afterLPF e2 n e.breaks, by simp [encN, h2], ?_⟩
-    intro seq base mj s O hp g
+    intro seq base mj s O hS hc hp g
+    simp only [Node.callsOk] at hc
     have pF : e2.out <+: (afterLPF e2 n e.breaks).out := List.prefix_append _ _
     have hp1 : e.out ++ mds_LP :: [] <+: seq := p2.trans (pF.trans hp)
-    obtain ⟨s1, r1, g1, hl1, hc1, hd1, hj1⟩ := enter_loop (base := base) (mj := mj) g hp1
-    obtain ⟨s', r', g', hl', hc', hd', hj'⟩ := loop_first (base := base) (mj := mj) (n := n)
+    obtain ⟨s1, r1, g1, hl1, hc1, hd1, hj1⟩ := enter_loop (base := base) (mj := mj) hS g hp1
+    obtain ⟨s', r', g', hl', hc', hd', hj'⟩ := loop_first (base := base) (mj := mj) (n := n) hS
       (eF := afterLPF e2 n e.breaks)
-      (fun s O g => sem2 seq base mj s O (pF.trans hp) g) rfl rfl rfl (show mds_LPF ≥ 0xe0 by decide) rfl rfl
+      (fun s O g => sem2 seq base mj s O hS hc (pF.trans hp) g) rfl rfl rfl (show mds_LPF ≥ 0xe0 by decide) rfl rfl
       (needLenB_cmd (show mds_LP ≥ 0xe0 by decide)) hp s1 O s.loops g1 hl1
-    refine ⟨s', r1.trans r', ⟨hl', hc'.trans hc1, hd'.trans hd1, hj'.trans hj1⟩, ?_⟩
-    simpa [Node.exp] using g'
-  | .loopB body tail n, hl, e => by
+    refine ⟨s', r1.trans r', ⟨hl', hc'.trans hc1, hj'.trans hj1⟩, ?_⟩
+    simpa [Node.exp, Node.after] using g'
+  | .loopB body tail n, hl, hm, e => by
     simp only [Node.lin, Bool.and_eq_true] at hl
-    obtain ⟨e2, h2, semB⟩ := encL_sim nS nM body hl.1 (afterLP e)
+    simp only [Node.mok, Bool.and_eq_true] at hm
+    obtain ⟨e2, h2, semB⟩ := encL_sim M false nS nM body hl.1 hm.1 (afterLP e)
+    rw [afterL_of_mok hm.1] at semB
     obtain ⟨_, h2', p2, _, _⟩ := encL_total nS nM body hl.1 (afterLP e)
     rw [h2] at h2'; injection h2' with h2'; subst h2'
     obtain ⟨e4, h4, p4, _, _⟩ := encL_total nS nM tail hl.2 (afterLPB e2 [])
     obtain ⟨off, hoff⟩ : ∃ off, off = e4.out.length - e2.out.length + 2 := ⟨_, rfl⟩
-    obtain ⟨e4', h4', semT⟩ := encL_sim nS nM tail hl.2 (afterLPB e2 (brkCmd off))
+    obtain ⟨e4', h4', semT⟩ := encL_sim M false nS nM tail hl.2 hm.2 (afterLPB e2 (brkCmd off))
+    rw [afterL_of_mok hm.2] at semT
     obtain ⟨_, h4'', p4', _, _⟩ := encL_total nS nM tail hl.2 (afterLPB e2 (brkCmd off))
     rw [h4'] at h4''; injection h4'' with h4''; subst h4''
     -- pass 1 and pass 2 have the same length
@@ -277,48 +354,74 @@ theorem encN_sim (nS nM : Nat) : ∀ (t : Node), t.lin = true → ∀ e : Enc, S
       simp [afterLPB] at h1 h2 h3
       omega
     refine ⟨afterLPFB e4' n e.breaks, by simp [encN, h2, h4, ← hoff, h4'], ?_⟩
-    intro seq base mj s O hp g
+    intro seq base mj s O hS hc hp g
+    simp only [Node.callsOk] at hc
     have pF : e4'.out <+: (afterLPFB e4' n e.breaks).out := List.prefix_append _ _
     have pC : e2.out <+: (afterLPB e2 (brkCmd off)).out := List.prefix_append _ _
     have hp1 : e.out ++ mds_LP :: [] <+: seq := p2.trans (pC.trans (p4'.trans (pF.trans hp)))
-    obtain ⟨s1, r1, g1, hl1, hc1, hd1, hj1⟩ := enter_loop (base := base) (mj := mj) g hp1
-    have c : LB seq base mj e e2 e4' off n e.breaks (expL nS nM body) (expL nS nM tail) :=
-      ⟨fun s O g => semB seq base mj s O (pC.trans (p4'.trans (pF.trans hp))) g,
-       fun s O g => semT seq base mj s O (pF.trans hp) g, hp, p4', htgt⟩
+    obtain ⟨s1, r1, g1, hl1, hc1, hd1, hj1⟩ := enter_loop (base := base) (mj := mj) hS g hp1
+    have c : LB M seq base mj e e2 e4' off n e.breaks (expL M nS nM body) (expL M nS nM tail) :=
+      ⟨hS, fun s O g => semB seq base mj s O hS hc.1 (pC.trans (p4'.trans (pF.trans hp))) g,
+       fun s O g => semT seq base mj s O hS hc.2 (pF.trans hp) g, hp, p4', htgt⟩
     obtain ⟨s', r', g', hl', hc', hd', hj'⟩ := c.first s1 O s.loops g1 hl1
-    refine ⟨s', r1.trans r', ⟨hl', hc'.trans hc1, hd'.trans hd1, hj'.trans hj1⟩, ?_⟩
-    simpa [Node.exp] using g'
-theorem encL_sim (nS nM : Nat) : ∀ (ts : List Node), linL ts = true → ∀ e : Enc,
-    StepOk (encL nS nM ts) e (expL nS nM ts)
-  | [], _, e => ⟨e, rfl, fun _ _ _ s O _ g => ⟨s, .refl _, Frame.rfl' _, by simpa [expL] using g⟩⟩
-  | t :: ts, hl, e => by
+    refine ⟨s', r1.trans r', ⟨hl', hc'.trans hc1, hj'.trans hj1⟩, ?_⟩
+    simpa [Node.exp, Node.after] using g'
+theorem encL_sim (M : Mode) (top : Bool) (nS nM : Nat) : ∀ (ts : List Node), linL ts = true → mokL M top ts = true →
+    ∀ e : Enc, StepOk M (afterL M ts) (fun seq base mj => callsOkL M seq base mj ts) (encL nS nM ts) e (expL M nS nM ts)
+  | [], _, _, e => ⟨e, rfl, fun _ _ _ s O _ _ _ g => ⟨s, .refl _, FrameX.rfl' _, by simpa [expL, afterL] using g⟩⟩
+  | t :: ts, hl, hm, e => by
     simp only [linL, Bool.and_eq_true] at hl
-    obtain ⟨e1, h1, sem1⟩ := encN_sim nS nM t hl.1 e
-    obtain ⟨e2, h2, sem2⟩ := encL_sim nS nM ts hl.2 e1
+    simp only [mokL, Bool.and_eq_true] at hm
+    obtain ⟨e1, h1, sem1⟩ := encN_sim M top nS nM t hl.1 hm.1 e
+    obtain ⟨e2, h2, sem2⟩ := encL_sim (t.after M) top nS nM ts hl.2 hm.2 e1
     obtain ⟨_, h2', p2, _, _⟩ := encL_total nS nM ts hl.2 e1
     rw [h2] at h2'; injection h2' with h2'; subst h2'
     refine ⟨e2, by simp [encL, h1, h2], ?_⟩
-    intro seq base mj s O hp g
-    obtain ⟨s1, r1, f1, g1⟩ := sem1 seq base mj s O (p2.trans hp) g
-    obtain ⟨s2, r2, f2, g2⟩ := sem2 seq base mj s1 _ hp g1
-    exact ⟨s2, r1.trans r2, f1.trans f2, by simpa [expL, List.reverse_append, List.append_assoc] using g2⟩
+    intro seq base mj s O hS hc hp g
+    simp only [callsOkL] at hc
+    obtain ⟨s1, r1, f1, g1⟩ := sem1 seq base mj s O hS hc.1 (p2.trans hp) g
+    have hS' : (t.after M).Sound seq base mj := by
+      cases t <;> simp only [Node.after] <;> try exact hS
+      unfold Mode.after; split
+      · exact Mode.set_sound hS _
+      · exact hS
+    obtain ⟨s2, r2, f2, g2⟩ := sem2 seq base mj s1 _ hS' hc.2 hp g1
+    exact ⟨s2, r1.trans r2, f1.trans f2, by simpa [expL, afterL, List.reverse_append, List.append_assoc] using g2⟩
 end
+
+theorem afterL_sound {M : Mode} {seq : List Nat} {base mj : Nat} (hS : M.Sound seq base mj) :
+    ∀ ts : List Node, (afterL M ts).Sound seq base mj := by
+  intro ts
+  induction ts generalizing M with
+  | nil => exact hS
+  | cons t ts ih =>
+    simp only [afterL]
+    apply ih
+    cases t <;> simp only [Node.after] <;> try exact hS
+    unfold Mode.after; split
+    · exact Mode.set_sound hS _
+    · exact hS
 
 /-- **C02, counted loops with and without break, nested to any depth.**  The structured encoding
 exists; if it (with the terminator) is shorter than 64 KiB it is what `convert_track` produces, and
 the interpreter plays exactly the loop expansion. -/
-theorem codec_roundtrip_loops (nS nM : Nat) (ts : List Node) (hl : linL ts = true) (farg : Nat) :
+theorem codec_roundtrip_loops (nS nM : Nat) (ts : List Node) (hl : linL ts = true) (hk : brkOkL false ts = true)
+    (hnc : noCallL ts = true) (hm : mokL Mode.plain false ts = true) (farg : Nat) :
     ∃ e', encL nS nM ts {} = .ok e' ∧
       (e'.out.length + 1 < 65536 →
         convertTrack nS nM (flatL ts ++ [⟨mds_FINISH, farg⟩]) = .ok (e'.out ++ [mds_FINISH]) ∧
-        ∀ (base mj : Nat) (ln lr : Option Nat), Plays (e'.out ++ [mds_FINISH]) base mj ln lr (expL nS nM ts)) := by
-  obtain ⟨e1, he1, sem⟩ := encL_sim nS nM ts hl {}
+        ∀ (base mj : Nat) (ln lr : Option Nat),
+          Plays (e'.out ++ [mds_FINISH]) base mj ln lr (expL Mode.plain nS nM ts)) := by
+  obtain ⟨e1, he1, sem⟩ := encL_sim Mode.plain false nS nM ts hl hm {}
+  rw [afterL_of_mok hm] at sem
   refine ⟨e1, he1, fun hb => ⟨?_, ?_⟩⟩
-  · have := encL_eq nS nM ts hl {} e1 he1 (by omega)
+  · have := encL_eq nS nM ts false hl hk {} e1 (fun h => by cases h) he1 (by omega)
     simp [convertTrack, encAll_append, this, encAll, encEv_finish, Except.map]
   · intro base mj ln lr
-    obtain ⟨s1, r1, f1, g1⟩ := sem (e1.out ++ [mds_FINISH]) base mj _ [] (List.prefix_append _ _) (good_init ln lr)
-    obtain ⟨s2, r2, hfin, ho⟩ := finish_run (base := base) (mj := mj) g1 (f1.calls) (List.prefix_refl _)
+    have hS := Mode.plain_sound (e1.out ++ [mds_FINISH]) base mj
+    obtain ⟨s1, r1, f1, g1⟩ := sem (e1.out ++ [mds_FINISH]) base mj _ [] hS (noCallL_callsOkL _ _ _ _ ts hnc)
+      (List.prefix_append _ _) (good_init ln lr)
+    obtain ⟨s2, r2, hfin, ho⟩ := finish_run (base := base) (mj := mj) hS g1 (f1.calls) (List.prefix_refl _)
     exact ⟨s2, r1.trans r2, hfin, by simpa using ho⟩
 
 end Ctrmml.Codec
